@@ -21,7 +21,8 @@ ScalarKinds == {"float", "float_tiny", "float_huge", "neg_zero", "int", "complex
                 "complex_neg", "np_complex_neg"}         \* negative imaginary part (text form "a-bj")
 SeqKinds == {"list", "tuple", "array1d", "list_of_np"}
 ObjKinds == {"nested_object", "prior", "derived_prior", "ufunc_prior", "complex_prior",
-             "prior_half_open", "prior_unbounded", "prior_guess_on_bound"}   \* improper priors, guess = a bound
+             "prior_half_open", "prior_unbounded", "prior_guess_on_bound",   \* improper priors, guess = a bound
+             "rdiv_prior", "rsub_prior", "neg_prior", "rpow_prior"}            \* reflected operators: c / p, c - p, -p, c ** p
 Kinds == ScalarKinds \cup SeqKinds \cup ObjKinds
 
 Norm(k) == IF k \in {"tuple", "array1d", "list_of_np"} THEN "list"
@@ -32,7 +33,7 @@ Norm(k) == IF k \in {"tuple", "array1d", "list_of_np"} THEN "list"
            ELSE k
 EqHolds(s) == \A i \in 1..NSlots : s[i] \notin {"tuple", "array1d"}     \* == compares containers by type
 
-Init == /\ slots \in [1..NSlots -> Kinds] /\ target \in {"file", "stream"}
+Init == /\ slots \in [1..NSlots -> Kinds] /\ target \in {"file", "stream", "file_no_extension"}
         /\ cycles = 0 /\ value = slots
 SaveLoad == /\ cycles < MaxCycles
             /\ value' = [i \in 1..NSlots |-> Norm(value[i])]
